@@ -50,6 +50,8 @@ func (r *detReader) Read(p []byte) (int, error) {
 // XW is world X: a real p2p.Exchange client on a libp2p mocknet whose other
 // hosts are scripted peers (or real ExchangeServers, see xserver).
 type XW struct {
+	// SenderPause > 0 makes rawRequest send its request in two pieces, that far apart.
+	SenderPause time.Duration
 	S     *core.Sim
 	Net   mocknet.Mocknet
 	Hosts []host.Host // [0] = client
